@@ -431,9 +431,7 @@ func (s *Server) handleDiscover(req *dhcpv4.DHCPv4) (*dhcpv4.DHCPv4, error) {
 			}
 			s.leasesByCircuitIDMu.Unlock()
 		}
-		if s.loader != nil {
-			s.loader.RemoveSubscriber(ebpf.MACToUint64(mac))
-		}
+		s.purgeFastPathCache(mac, existingLease)
 		existingLease = nil
 	}
 
@@ -733,9 +731,8 @@ func (s *Server) handleRequest(req *dhcpv4.DHCPv4) (*dhcpv4.DHCPv4, error) {
 			}
 			s.leasesMu.Unlock()
 			pool.Reassign(existingLease.MAC, mac)
-			if s.loader != nil {
-				s.loader.RemoveSubscriber(ebpf.MACToUint64(existingLease.MAC))
-			}
+			// The fast path entries are rewritten for the new lease below
+			s.purgeFastPathCache(existingLease.MAC, existingLease)
 		}
 		if oldKey := hex.EncodeToString(existingLease.CircuitID); len(existingLease.CircuitID) > 0 && oldKey != hex.EncodeToString(lease.CircuitID) {
 			// The client moved to another port: the old circuit-ID must no
@@ -745,6 +742,7 @@ func (s *Server) handleRequest(req *dhcpv4.DHCPv4) (*dhcpv4.DHCPv4, error) {
 				delete(s.leasesByCircuitID, oldKey)
 			}
 			s.leasesByCircuitIDMu.Unlock()
+			s.purgeFastPathCache(existingLease.MAC, existingLease)
 		}
 	}
 
@@ -1074,12 +1072,57 @@ func (s *Server) handleDecline(req *dhcpv4.DHCPv4) {
 		if pool := s.poolMgr.GetPool(lease.PoolID); pool != nil {
 			pool.Decline(mac, declinedIP)
 		}
+
+		// The lease is gone: the fast path must stop answering for it
+		s.purgeFastPathCache(mac, lease)
 		return
 	}
 
 	// DECLINE of an address that was offered but not yet acknowledged
 	if pool := s.poolMgr.ClassifyClient(mac); pool != nil && pool.AllocatedTo(mac, declinedIP) {
 		pool.Decline(mac, declinedIP)
+	}
+}
+
+// purgeFastPathCache removes every eBPF fast path entry written for a lease
+// (MAC, QinQ VLAN pair, circuit-ID) once the lease no longer exists.
+func (s *Server) purgeFastPathCache(mac net.HardwareAddr, lease *Lease) {
+	if s.loader == nil || lease == nil {
+		return
+	}
+
+	if err := s.loader.RemoveSubscriber(ebpf.MACToUint64(mac)); err != nil {
+		s.logger.Debug("Failed to remove from fast path cache",
+			zap.String("mac", mac.String()),
+			zap.Error(err),
+		)
+	}
+
+	if (lease.STag > 0 || lease.CTag > 0) && s.loader.HasVLANSupport() {
+		if err := s.loader.RemoveVLANSubscriber(lease.STag, lease.CTag); err != nil {
+			s.logger.Debug("Failed to remove from VLAN fast path cache",
+				zap.Uint16("s_tag", lease.STag),
+				zap.Uint16("c_tag", lease.CTag),
+				zap.Error(err),
+			)
+		}
+	}
+
+	if len(lease.CircuitID) > 0 {
+		if err := s.loader.RemoveCircuitIDMapping(lease.CircuitID); err != nil {
+			s.logger.Debug("Failed to remove circuit-id to MAC mapping",
+				zap.String("circuit_id", string(lease.CircuitID)),
+				zap.Error(err),
+			)
+		}
+		if s.loader.HasCircuitIDSubscriberSupport() {
+			if err := s.loader.RemoveCircuitIDSubscriber(lease.CircuitID); err != nil {
+				s.logger.Debug("Failed to remove circuit-id subscriber mapping",
+					zap.String("circuit_id", string(lease.CircuitID)),
+					zap.Error(err),
+				)
+			}
+		}
 	}
 }
 
@@ -1222,12 +1265,11 @@ func (s *Server) cleanupExpiredLeases() {
 			pool.Release(lease.IP)
 		}
 
-		// Remove from fast path cache
+		// Remove from fast path cache (MAC, VLAN pair and circuit-ID entries)
 		if s.loader != nil {
 			hwAddr, _ := net.ParseMAC(mac)
 			if hwAddr != nil {
-				macU64 := ebpf.MACToUint64(hwAddr)
-				s.loader.RemoveSubscriber(macU64)
+				s.purgeFastPathCache(hwAddr, lease)
 			}
 		}
 	}
